@@ -43,13 +43,13 @@ def arith_plan(quick, rnd):
                    {"points": ["A"], "scalars": [0, 1, 2, "n", "n+1", "rand:%d" % rnd.randrange(8, bits), "rand:%d" % rnd.randrange(bits, 210)]},
                    {"points": ["R"], "scalars": [0, 1, 3, "n-1", "2n+5", "rand:%d" % rnd.randrange(8, bits), "rand:%d" % rnd.randrange(bits, 210)]},
                    {"points": ["G", "R"], "scalars": [rnd.choice(["n", "n+1"]), "rand:%d" % bits, 1, 0], "unblinded": True}]
-            if clen == 14:               # a scalar several times as long as the order
-                mul.append({"points": [rnd.choice(["G", "A", "R"])], "scalars": ["rand:%d" % rnd.randrange(400, 700)]})
+            if clen == 14:               # a scalar several times as long as the order; all-ones scalars filling whole 64-bit words (carries of the blinded scalar)
+                mul.append({"points": [rnd.choice(["G", "A", "R"])], "scalars": ["rand:%d" % rnd.randrange(400, 700), "ones:256", rnd.choice(["ones:192", "ones:320"])]})
         else:
             mul = [{"points": ["G", "A", "R", "O"], "scalars": sc},
                    {"points": ["G", "R"], "scalars": ["n", "n+1", "rand:%d" % bits, 1, 0], "unblinded": True},
                    {"points": ["G", "A", "B", "R"], "scalars": TINY + ["pow2:%d" % (bits - 1), "ones:%d" % bits, "pow2:%d" % bits] + ["rand:%d" % rnd.randrange(2, 260) for _ in range(40)]},
-                   {"points": ["G", "R"], "scalars": ["rand:%d" % rnd.randrange(400, 1200), "rand:%d" % rnd.randrange(1200, 2100)]}]
+                   {"points": ["G", "R"], "scalars": ["rand:%d" % rnd.randrange(400, 1200), "rand:%d" % rnd.randrange(1200, 2100), "ones:128", "ones:192", "ones:256", "ones:320", "ones:384"]}]
         plan.append({"curve": name, "clen": clen, "do": ["classes"], "mul": mul})
     # full-size Weierstrass curves: every operand class, small scalars on G / multiples / arbitrary points, structured full-length scalars
     for name in NIST:
@@ -60,12 +60,15 @@ def arith_plan(quick, rnd):
             mul.append({"points": ["G"], "scalars": full})
             other = rnd.choice(["n-1", "n+1", "rand:%d" % bits])
             mul.append({"points": [rnd.choice(["A", "R"])], "scalars": [other if name not in ("P-384", "P-521") else "rand:%d" % rnd.randrange(60, 200)]})
+            if name == ["P-192", "P-224", "P-256"][rnd.randrange(3)]:  # all-ones scalar two words longer than the order (carries of the blinded scalar), on one curve by the seed
+                mul.append({"points": [rnd.choice(["G", "A"])], "scalars": ["ones:%d" % (64 * ((bits + 63) // 64 + 2))]})
             if name == ["P-384", "P-521"][rnd.randrange(2)]:          # one of the two big curves gets a second full-length scalar, by the seed
                 mul.append({"points": [rnd.choice(["G", "R"])], "scalars": [other]})
         else:
             nfull = {"P-192": 60, "P-224": 60, "P-256": 90, "P-384": 40, "P-521": 16}[name]
             mul.append({"points": ["G", "R"], "scalars": ["n-1", "n", "n+1"]})
             mul.append({"points": ["A"], "scalars": ["2n+5", "pow2:%d" % (bits - 1), "ones:%d" % bits]})
+            mul.append({"points": ["G", "R"], "scalars": ["ones:%d" % (64 * ((bits + 63) // 64 + w)) for w in ((1, 2, 3) if bits < 300 else (2,))]})
             mul.append({"points": ["G"], "scalars": ["rand:%d" % rnd.choice([bits, bits, bits - 1, bits - 7, bits + 1, bits + 64]) for _ in range(nfull // 2)]})
             mul.append({"points": ["R"], "scalars": ["rand:%d" % rnd.choice([bits, bits, bits - 1, bits - 9]) for _ in range(nfull // 4)]})
             mul.append({"points": ["A"], "scalars": ["rand:%d" % rnd.choice([bits, bits, bits - 1, bits - 30]) for _ in range(nfull // 4)]})
@@ -85,6 +88,7 @@ def arith_plan(quick, rnd):
             mul.append({"points": ["G"], "scalars": ["rand:%d" % rnd.choice([bits, bits, bits - 1, bits + 3, bits + 64]) for _ in range(nfull // 2)]})
             mul.append({"points": ["R", "M", "A"], "scalars": ["rand:%d" % rnd.choice([bits, bits - 1, bits + 3]) for _ in range(nfull // 6)]})
             mul.append({"points": low, "scalars": ["rand:%d" % rnd.randrange(40, 200), "n", "hn+1"]})
+            mul.append({"points": ["G", "R"], "scalars": ["ones:%d" % (64 * ((bits + 63) // 64 + w)) for w in (0, 1)]})
         plan.append({"curve": name, "do": ["classes"], "mul": mul})
     # Montgomery curves, x only
     for name in ("Curve25519", "Curve448"):
@@ -99,6 +103,7 @@ def arith_plan(quick, rnd):
             mul.append({"points": ["G", "rand"], "scalars": ["n-1", "n", "n+1", "hn", "hn+1"]})
             mul.append({"points": ["G", "rand", "rand2", "max", "p+G"], "scalars": ["rand:%d" % rnd.choice([bits + 2, bits + 2, bits, bits - 5, bits + 66]) for _ in range(nfull // 5)]})
             mul.append({"points": ["0", "1", "p-1", "ord8a", "p+1"], "scalars": ["rand:%d" % rnd.randrange(40, 200), "hn"]})
+            mul.append({"points": ["G", "rand"], "scalars": ["ones:%d" % (64 * ((bits + 63) // 64 + w)) for w in (0, 1)]})
         if quick:
             xdh = [rnd.choice(["topbit", "noncanonical", "twist-or-curve", "valid"]), "low"] if name == "Curve25519" else [rnd.choice(["valid", "noncanonical", "twist-or-curve"])]
         else:
